@@ -203,6 +203,10 @@ class FnState:
         self.lambdas = {}     # var id -> LambdaExpr
         self.refvars = set()  # ids of locals/params lowered to pointers
         self.this_type = None
+        self.try_stack = []   # labels of enclosing catch dispatchers
+        self.tryn = 0
+        self.handler_exc = []  # names of saved exception-kind variables of enclosing handlers
+        self.dtor_depth = 0    # > 0 while inside a scope that owns a destructible local
 
     def tmp(self):
         self.tmpn += 1
@@ -687,7 +691,14 @@ class Lowering:
             if dtors and self.has_jump(c):
                 raise Unsupported('scope with a destructible local (%s) contains return/break/continue/goto at %s'
                                   % (dtors[0][0], self.tu.where(c)))
-            out += self.indent(self.stmt(c, fs), 1)
+            if dtors:
+                fs.dtor_depth += 1
+                try:
+                    out += self.indent(self.stmt(c, fs), 1)
+                finally:
+                    fs.dtor_depth -= 1
+            else:
+                out += self.indent(self.stmt(c, fs), 1)
         for name, dt in reversed(dtors):
             cn = self.cname_for(dt)
             self.note_call(dt)
@@ -815,6 +826,43 @@ class Lowering:
             out += self.indent(['for (; %s; %s)' % (c, i)] + lc + ['{'] + self.indent(condpre + self.block(body, fs), 1) + ['}'], 1)
         else:
             out += self.indent(['for (; %s; %s)' % (c, i)] + lc + self.block(body, fs), 1)
+        out.append('}')
+        return out
+
+    def s_CXXTryStmt(self, n, fs):
+        ks = [k for k in kids(n) if k.get('kind')]
+        body, handlers = ks[0], ks[1:]
+        fs.tryn += 1
+        N = fs.tryn
+        catch_l, end_l = '__catch%d' % N, '__endtry%d' % N
+        fs.try_stack.append(catch_l)
+        out = ['{ /* try */'] + self.indent(self.stmt(body, fs), 1)
+        fs.try_stack.pop()
+        out += self.indent(['goto %s;' % end_l, '%s: ;' % catch_l], 1)
+        # inside the try block a may-raise callee might not be recognised as such on the first lowering
+        # pass; the fixpoint re-lowers until stable.
+        excv = '__exc%d' % N
+        out += self.indent(['{', '  int %s = verif_raised;' % excv], 1)
+        for h in handlers:
+            hk = [k for k in kids(h) if k.get('kind')]
+            hbody = hk[-1]
+            var = hk[0] if len(hk) > 1 and hk[0].get('kind') == 'VarDecl' else None
+            if var is None:
+                cond = '1'
+                tdesc = '...'
+            else:
+                tn = self.strip_cvref(ty(var))
+                kinds = [self.exc_kind(tn)] + list(self.cfg.get('exception_subkinds', {}).get(tn, []))
+                cond = ' || '.join('%s == %d' % (excv, k) for k in kinds)
+                tdesc = tn
+            fs.handler_exc.append(excv)
+            hl = self.stmt(hbody, fs)
+            fs.handler_exc.pop()
+            out += self.indent(['if (%s) { /* catch (%s) */' % (cond, tdesc), '  verif_raised = 0;'] +
+                               self.indent(hl, 1) + ['  goto %s;' % end_l, '}'], 2)
+        self.mark_raise(fs)
+        out += self.indent(['%s /* no handler matched: propagate */' % self.raise_exit(fs), '}'], 1)
+        out += self.indent(['%s: ;' % end_l], 1)
         out.append('}')
         return out
 
@@ -1285,12 +1333,16 @@ class Lowering:
     def e_CXXThrowExpr(self, n, ctx):
         # throw E;  ->  raise; the operand (message construction) is dropped
         self.mark_raise(ctx.fn)
-        dmy = self.dummy(ctx.fn.rett)
         what = ''
-        ks = kids(n)
-        if ks:
-            what = re.sub(r'[^A-Za-z0-9_:<> ]', '', ty(ks[0]))[:60]
-        ctx.pre.append('{ verif_raised = 1; return%s; } /* throw %s; operand dropped */' % ((' ' + dmy) if dmy else '', what))
+        ks = [k for k in kids(n) if k.get('kind')]
+        if not ks:
+            if not ctx.fn.handler_exc:
+                raise Unsupported('rethrow outside a handler')
+            ctx.pre.append('{ verif_raised = %s; %s } /* throw; (rethrow) */' % (ctx.fn.handler_exc[-1], self.raise_exit(ctx.fn)))
+            return '((void)0)'
+        what = re.sub(r'[^A-Za-z0-9_:<> ]', '', ty(ks[0]))[:60]
+        ctx.pre.append('{ verif_raised = %d; %s } /* throw %s; operand dropped */'
+                       % (self.exc_kind(self.strip_cvref(ty(ks[0]))), self.raise_exit(ctx.fn), what))
         self.report.setdefault('throws', [])
         self.report['throws'].append('%s: throw %s' % (ctx.fn.cname, what))
         return '((void)0)'
@@ -1467,9 +1519,24 @@ class Lowering:
             return t
         return call
 
-    def raise_check(self, fs):
+    def raise_exit(self, fs):
+        """Statement that leaves the current point because an exception is in flight."""
+        if fs.dtor_depth > 0:
+            raise Unsupported('an exception would unwind past a destructible local in %s' % fs.cname)
+        if fs.try_stack:
+            return 'goto %s;' % fs.try_stack[-1]
         d = self.dummy(fs.rett)
-        return 'if (verif_raised) return%s;' % ((' ' + d) if d else '')
+        return 'return%s;' % ((' ' + d) if d else '')
+
+    def raise_check(self, fs):
+        return 'if (verif_raised) %s' % self.raise_exit(fs)
+
+    def exc_kind(self, tname):
+        kinds = self.cfg.get('exception_kinds', {})
+        for pat, k in kinds.items():
+            if re.fullmatch(pat, tname):
+                return k
+        return 1
 
     def mark_raise(self, fs):
         self.may_raise.add(fs.decl['mangledName'])
@@ -1559,9 +1626,8 @@ class Lowering:
         if q in self.raise_fns:
             self.mark_raise(ctx.fn)
             self.report['raise_sites'] += 0
-            dmy = self.dummy(ctx.fn.rett)
-            ctx.pre.append('{ verif_raised = 1; return%s; } /* %s(...): throw; message construction dropped */'
-                           % ((' ' + dmy) if dmy else '', q.split('::')[-1]))
+            ctx.pre.append('{ verif_raised = 1; %s } /* %s(...): throw; message construction dropped */'
+                           % (self.raise_exit(ctx.fn), q.split('::')[-1]))
             return '((void)0)'
         if q in self.drop_calls:
             if q not in self.report['dropped']:
@@ -1591,6 +1657,25 @@ class Lowering:
             else:
                 argv = ([this] if this is not None else []) + self.call_args(d, args, ctx)
             e = '%s(%s)' % (self.ext_name(ext), ', '.join(argv))
+            if self.ext_name(ext) in self.cfg.get('extern_may_raise', []):
+                # a modelled callee that can throw: same propagation protocol as for lowered callees
+                self.mark_raise(ctx.fn)
+                rt = None
+                try:
+                    rt = self.ret_ctype(d)
+                except Unsupported:
+                    rt = self.cfg.get('extern_ret', {}).get(self.ext_name(ext))
+                    if rt is None:
+                        raise
+                if rt == 'void':
+                    ctx.pre.append('%s;' % e)
+                    ctx.pre.append(self.raise_check(ctx.fn))
+                    e = '((void)0)'
+                else:
+                    t = ctx.fn.tmp()
+                    ctx.pre.append('%s %s = %s;' % (rt, t, e))
+                    ctx.pre.append(self.raise_check(ctx.fn))
+                    e = t
         else:
             try:
                 rett = self.ret_ctype(d)
@@ -1658,7 +1743,7 @@ class Lowering:
 
 def lower(src, flags, cfg, roots, workdir):
     os.makedirs(workdir, exist_ok=True)
-    js = os.path.join(workdir, os.path.basename(src) + '.ast.json')
+    js = os.path.join(workdir, '%s.%d.ast.json' % (os.path.basename(src), os.getpid()))
     run_clang(src, flags, js)
     tu = TU(js)
     try:
